@@ -2,6 +2,7 @@ package node
 
 import (
 	"fmt"
+	"github.com/freeconf/yang/fc"
 	"net/url"
 	"reflect"
 	"strings"
@@ -31,6 +32,10 @@ func minInt(a, b int) int {
 
 func NewValuesByString(m []meta.Leafable, objs ...string) ([]val.Value, error) {
 	var err error
+	if len(objs) < len(m) {
+		// the missing ones would be nil, which no node expects in a key
+		return nil, fmt.Errorf("%w. %d key values given, %d expected", fc.BadRequestError, len(objs), len(m))
+	}
 	l := minInt(len(m), len(objs))
 	vals := make([]val.Value, len(m))
 	for i := 0; i < l; i++ {
